@@ -259,12 +259,16 @@ func (c *Ctx) NodeCheck(js string) (bool, string) {
 // NodeCheck3 is the three-valued form: a file is invalid only if node itself reports a
 // SyntaxError; a watchdog firing or node dying otherwise (loaded machine) is inconclusive.
 func (c *Ctx) NodeCheck3(js string) (ok bool, msg string, inconclusive bool) {
-	r := Exec(filepath.Dir(js), BaseEnv(), 3*time.Minute, "", "node", "--check", js)
+	// The file is compiled (not run) the way `node --check` does it, as a CommonJS module body;
+	// only the name and message of the exception are printed: `node --check` itself echoes the
+	// offending source line, which is the whole program for minified output and takes minutes.
+	const script = `try { new (require("vm").Script)(require("module").wrap(require("fs").readFileSync(process.argv[1], "utf8")), {filename: process.argv[1]}); } catch (e) { console.error(String(e.name) + ": " + String(e.message)); process.exit(e instanceof SyntaxError ? 3 : 4); }`
+	r := Exec(filepath.Dir(js), BaseEnv(), 3*time.Minute, "", "node", "-e", script, js)
 	if r.Exit == 0 && !r.TimedOut {
 		return true, "", false
 	}
-	if !r.TimedOut && strings.Contains(r.Stderr, "SyntaxError") {
-		return false, r.Stderr, false
+	if !r.TimedOut && r.Exit == 3 && strings.Contains(r.Stderr, "SyntaxError") {
+		return false, filepath.Base(js) + ": " + r.Stderr, false
 	}
 	return true, r.Stderr, true
 }
